@@ -25,12 +25,16 @@ pub fn au2rad(a: i64) -> f64 {
 }
 
 /// radians -> AU (rounded); non-finite maps to a sentinel far outside any range.
+/// Values beyond +-3000 degrees (and non-finite ones) are clamped to +-AU_CLAMP so that TLC's 32-bit arithmetic on
+/// them cannot overflow (the weighted cost, a sum of six differences times 16, is only evaluated on answers within
+/// +-900 degrees, see Solver!Ordered); every angle the properties speak about is inside +-4 pi.
+pub const AU_CLAMP: i64 = 30_000_000;
 pub fn rad2au(r: f64) -> i64 {
     if !r.is_finite() {
-        return 2_000_000_000;
+        return AU_CLAMP;
     }
     let v = (r.to_degrees() * 1e4).round();
-    if v.abs() > 1.9e9 { 2_000_000_000 } else { v as i64 }
+    if v.abs() > AU_CLAMP as f64 { if v > 0.0 { AU_CLAMP } else { -AU_CLAMP } } else { v as i64 }
 }
 
 pub fn au6(q: &[f64; 6]) -> Vec<i64> {
